@@ -23,6 +23,9 @@ pub use route_time::RouteTime;
 pub use route_weekday::RouteWeekday;
 #[cfg(kani)]
 pub use route_weekday::Weekdays;
+#[cfg(kani)]
+use crate::verif_shim::map::{HashMap, HashSet};
+#[cfg(not(kani))]
 use std::collections::{HashMap, HashSet};
 use std::sync::Arc;
 pub use trace::{RouteTrace, Trace};
